@@ -234,8 +234,8 @@ ADDED3 = {
     'C11': 'And: the side conditions on the variables of a defining equation: subset test with types, no schematic variables (D7). Every extension reaches the handler of its kind unconditionally (D8).',
     'C12': 'And: a cached theory is reused only when the recorded timestamp equals the current one (L9). A position in the item list is never tested by its truth value (L10).',
     'C13': 'And: after find_goal, citations are redirected to the line it returned (A9); renumbering moves the ids of every depth (A10). A proof line is parsed under the variable declarations of the lines before it (A11).',
-    'C15': 'And: clauses whose length decides backtracking are free of repeated literals (X7); the working clause list is a position-preserving image of the argument and append-only (X8). The clause under construction in conflict analysis changes only by resolution with a named clause (X9).',
-    'C16': 'And: after every asserted bound the tableau is checked before the next assertion or the result (O4). Every row that enters a constraint database was divided by the non-negative gcd of its coefficients (O5); a bound is stored only after it was compared with the opposite bound (O6).',
+    'C15': 'And: clauses whose length decides backtracking are free of repeated literals (X7); the working clause list is a position-preserving image of the argument and append-only (X8). The clause under construction in conflict analysis changes only by resolution with a named clause (X9); the auxiliary variables of the Tseitin encoding are chosen by the fresh-name generator against the variables of the formula (X10).',
+    'C16': 'And: after every asserted bound the tableau is checked before the next assertion or the result (O4). Every row that enters a constraint database was divided by the non-negative gcd of its coefficients (O5); a bound is stored only after it was compared with the opposite bound (O6); a handler that turns an exception into a verdict names the solver\'s infeasibility exceptions (O7).',
     'C05': 'And: the power of a polynomial decides the exponent 0 before any other case (T8).',
     'C07': 'And: type inference, with which every parser entry point ends, expands its table to a fixpoint (W6).',
     'C08': 'And: the representatives of internal type variables are expanded to a fixpoint (U8).',
